@@ -19,6 +19,8 @@ Definition code_fixed_F10 := false.
 (* the variant of router.go (connection refused by registerConnection / launchHandleRoutine is
    closed or abandoned) the real-transport cases compare with; flipped when the fix lands *)
 Definition code_fixed_F11 := true.
+(* the variant of treenode.go SendTo (configuration marked as sent before / after the send) *)
+Definition code_fixed_N1 := false.
 
 (* ---- operations of the harness ------------------------------------------- *)
 
@@ -381,6 +383,7 @@ Inductive case :=
 | CClassify (e : rawerr) (lost : bool) (nhand : nat) (obs_cls : ecls) (obs_left : bool) (obs_calls : nat)
 | CEntry (ep : entry) (self : nat) (dests : list nat) (up : list nat)
          (obs_errs : nat) (obs_deliv : list nat)
+| CConfig (first_failed : bool) (obs_victim_msg obs_victim_cfg obs_control_cfg : bool)
 | CCluster (canaries canaries_done : nat) (sends_returned survivors_alive handlers_told after_restart_ok : bool).
 
 (* ---- model side of the entry points ---------------------------------------- *)
@@ -428,6 +431,9 @@ Definition agree (c : case) : bool :=
   | CEntry ep self dests up obs_errs obs_deliv =>
       let (e, d) := entry_model code_fixed_F10 ep self dests up in
       (e =? obs_errs) && same_set d obs_deliv
+  | CConfig first_failed vmsg vcfg ccfg =>
+      vmsg && ccfg &&
+      Bool.eqb vcfg (carries_config code_fixed_N1 (if first_failed then [RErr] else []))
   | CCluster canaries done returned alive told after =>
       (done =? canaries) && returned && alive && told && after
   end.
@@ -615,6 +621,10 @@ Definition check (c : case) : list nat :=
       clause 1 (match down with [] => true | _ => 1 <=? obs_errs end) ++
       clause 4 (forallb (fun d => negb (mem d up) || mem d obs_deliv) att &&
                 match down with [] => obs_errs =? 0 | _ => true end)
+  | CConfig first_failed vmsg vcfg ccfg =>
+      (* the property speaks about the message reaching the peer that is back, not about the
+         configuration travelling with it: only the message is demanded here *)
+      clause 4 vmsg
   | CCluster canaries done returned alive told after =>
       clause 5 ((done =? canaries) && returned && alive) ++ clause 3 told ++ clause 4 after
   end.
